@@ -632,6 +632,7 @@ func (r *c28Runner) runPhase(seed uint64, nsess, burst, hlat, failpct, closepct,
 				for k := cr.Intn(40); k > 0; k-- {
 					c28Pause(cr, hlat/2+30)
 				}
+				r.log.add("X%d", c.id) // the peer closes (informational)
 				h.OnClose(c, nil)
 			}()
 		}
